@@ -203,9 +203,10 @@ class Harness(object):
         try:
             r2 = f2.result(30)
         except OSError:
-            r2 = "TIMEOUT"
+            # an early (chosen) timer firing only models a slow schedule: not a verdict
+            r2 = "TIMEOUT" if sched.S.cur.fired_forced else "slow-schedule"
         self.obs["second"] = r2
-        if r2 != "second":
+        if r2 not in ("second", "slow-schedule"):
             self.viols.append(("C16/callback-exception-stops-worker", "task queued behind a task with a failing callback did not run: %r" % (r2,)))
         try:
             r = f1.result(1)
@@ -215,7 +216,8 @@ class Harness(object):
             if self.outcome != "raise" or ex is not self.X:
                 self.viols.append(("C16/result-changed-by-callback", "result() raised %r" % (ex,)))
         except OSError:
-            self.viols.append(("C16/result-timeout-after-completion", "result(1) timed out after the task finished"))
+            if sched.S.cur.fired_forced or r2 == "second":
+                self.viols.append(("C16/result-timeout-after-completion", "result(1) timed out after the task finished"))
         self.exec_raised = self.X if self.outcome == "raise" else None
         pool.stop()
 
@@ -283,40 +285,38 @@ def make(program, outcome, cbkind, opcode=False):
     return lambda: Harness(program, outcome, cbkind, opcode)
 
 
-def jobs(tier):
+LEVELS = [{"K": 0, "T": 0}, {"K": 1, "T": 0}, {"K": 1, "T": 1}, {"K": 2, "T": 1}, {"K": 3, "T": 1}, {"K": 4, "T": 1}, {"K": 5, "T": 2}]
+OUTCOMES = ("return", "raise", "return-falsy", "raise-falsy")
+
+
+def harnesses(tier):
     out = []
     progs_conc = ["reg||exec", "reg||reg||exec", "obs||exec", "obs||reg||exec"]
     progs_seq = ["reg;exec", "exec;reg", "reg;reg;exec", "exec;reg;reg", "pool"]
-    for outcome in ("return", "raise"):
+    for outcome in OUTCOMES:
         for cb in ("record", "raise", "arity"):
-            for p in progs_seq:
-                out.append((("checks.c16", "make", (p, outcome, cb)), {"K": 1 if p != "pool" else (1 if tier == "quick" else 2), "T": 0}, "%s/%s/%s" % (p, outcome, cb)))
-            for p in progs_conc:
+            if outcome.endswith("falsy") and cb != "record":
+                continue
+            for p in progs_seq + progs_conc:
                 if p == "obs||exec" and cb != "record":
                     continue
-                three = p.count("||") == 2
-                if tier == "quick":
-                    K = (2 if cb == "record" and p == "reg||reg||exec" else 1) if three else (3 if p == "reg||exec" else 2)
-                else:
-                    K = (3 if cb == "record" else 2) if three else 4
-                out.append((("checks.c16", "make", (p, outcome, cb)), {"K": K, "T": 1 if p.startswith("obs") else 0}, "%s/%s/%s" % (p, outcome, cb)))
-    for outcome in ("return-falsy", "raise-falsy"):
-        for p in ("exec;reg", "reg;exec", "pool"):
-            out.append((("checks.c16", "make", (p, outcome, "record")), {"K": 1, "T": 0}, "%s/%s/record" % (p, outcome)))
-        out.append((("checks.c16", "make", ("obs||exec", outcome, "record")), {"K": 2 if tier == "quick" else 3, "T": 1}, "obs||exec/%s/record" % outcome))
-        out.append((("checks.c16", "make", ("reg||exec", outcome, "record")), {"K": 2 if tier == "quick" else 3, "T": 0}, "reg||exec/%s/record" % outcome))
+                out.append((("checks.c16", "make", (p, outcome, cb)), "%s/%s/%s" % (p, outcome, cb)))
     if tier == "thorough":
         for outcome in ("return", "raise"):
             for p in ("reg||exec", "obs||exec"):
-                out.append((("checks.c16", "make", (p, outcome, "record", True)), {"K": 2, "T": 0}, "%s/%s/opcode" % (p, outcome)))
+                out.append((("checks.c16", "make", (p, outcome, "record", True)), "%s/%s/opcode" % (p, outcome)))
     return out
 
 
+BUDGET = {"quick": 10000, "thorough": 250000}
+
+
 def leg_schedules(part, tier, shard, nshards):
-    # runs in a single worker: the explorer itself fans out over all cores
-    total = explore.explore_jobs(jobs(tier))
+    # runs in this process: the explorer itself fans out over all cores
+    hs = harnesses(tier)
+    total = explore.explore_adaptive(hs, LEVELS, BUDGET[tier])
     part.merge(total)
-    part.counters["jobs"] = len(jobs(tier))
+    part.counters["harnesses"] = len(hs)
 
 
 LEGS = {"schedules": leg_schedules}
@@ -327,11 +327,11 @@ META = {
     "technique": "stateless model checking of the real FutureResult under a controlled scheduler: exhaustive enumeration of thread schedules "
     "with iterative preemption bounding at source-line (thorough: opcode) granularity, virtual clock for result(timeout)",
     "rule": "harness = program (registrar/executor/observer threads, sequential baselines, one-worker pool) x task outcome {return, raise, falsy return value, falsy exception object} x "
-    "callback kind {records, raises, wrong arity}; every schedule with at most K preemptions (quick: K=3 for two threads, K=2 for three; "
-    "thorough: 4 / 3, plus opcode granularity K=2) and T<=1 early timer firing; an execution is non-trivial when it has a choice point; "
+    "callback kind {records, raises, wrong arity}; every schedule up to the deepest (K,T) level of the ladder the harness completes "
+    "within the tier's budget; an execution is non-trivial when it has a choice point; "
     "distinct by (harness, choice sequence)",
-    "bounds": {"quick": {"K_two_threads": 3, "K_three_threads": 2, "T": 1, "granularity": "source line of threadpool.py"},
-               "thorough": {"K_two_threads": 4, "K_three_threads": 3, "T": 1, "granularity": "source line; opcode for set_callback/execute/__notify/EventData at K=2"}},
+    "bounds": {"quick": {"levels": "iterative (K,T) ladder (0,0) (1,0) (1,1) (2,1) (3,1) (4,1) (5,2) per harness while the predicted next level is <= 10000 executions; deepest completed level per harness in notes.completed_bounds", "granularity": "source line of threadpool.py"},
+               "thorough": {"levels": "same ladder, predicted <= 250000 executions", "granularity": "source line; opcode for set_callback/execute/__notify/EventData in four extra harnesses"}},
     "assumptions": [
         "thread switches happen only at synchronisation operations and at line (opcode) boundaries of jsonrpclib/threadpool.py",
         "threading.Event/Lock/Condition and queue are the shim implementations (stdlib queue.py source over shim threading)",
